@@ -628,6 +628,55 @@ def run_builders(case):
              tags={BUILDER_OPS[o][0] for _, o in events} | {'forked' if forks else 'linear'})
 
 
+# ---------------------------------------------------------------------------
+# Call / Invoke combine their parts as documented: every part evaluated once, left to right; falsy part specs are specs
+
+def parts_menu():
+    from glom import Call, Path
+    log = []
+
+    def rec(tag, value):
+        def f(t):
+            log.append(tag)
+            return value(t) if callable(value) else value
+        return Spec(f)
+    handlers = lambda: {'queue': [lambda j: 'low:' + j, lambda j: 'mid:' + j, lambda j: 'high:' + j]}
+
+    def call_parts():
+        del log[:]
+        r = glom({'a': 1}, Call(rec('func', lambda t: _pack), args=(rec('arg', 'A'),), kwargs={'k': rec('kw', 'K')}))
+        return r, list(log)
+
+    def call_popped():
+        t = handlers()
+        return glom(t, Call(T['queue'].pop(), args=('job',))), len(t['queue'])
+
+    def call_next():
+        fns = iter([lambda: 'first', lambda: 'second', lambda: 'third'])
+        return glom(fns, Call(Spec(next))), [f() for f in fns]
+    return [
+        ('invoke-star-args-empty-chain', lambda: glom([1, 2], Invoke(_pack).star(args=())), ['pack', [1, 2], []]),
+        ('invoke-star-kwargs-empty-path', lambda: glom({'x': 1}, Invoke(_pack).star(kwargs=Path())), ['pack', [], [('x', 1)]]),
+        ('invoke-star-between-constants', lambda: glom([1, 2], Invoke(_pack).constants(0).star(args=()).constants(9)), ['pack', [0, 1, 2, 9], []]),
+        ('invoke-star-args-T', lambda: glom([1, 2], Invoke(_pack).star(args=T)), ['pack', [1, 2], []]),
+        ('invoke-specs-falsy-spec', lambda: glom([1, 2], Invoke(_pack).specs(())), ['pack', [[1, 2]], []]),
+        ('call-parts-once-in-order', call_parts, (['pack', ['A'], [('k', 'K')]], ['func', 'arg', 'kw'])),
+        ('call-func-from-stateful-T', call_popped, ('high:job', 2)),
+        ('call-func-from-iterator', call_next, ('first', ['second', 'third'])),
+    ]
+
+
+def run_parts(i):
+    name, f, want = parts_menu()[i]
+    try:
+        got = f()
+    except Exception as e:
+        return R({'expected': repr(want), 'observed': 'raised %r' % (e,), 'case': name}, name)
+    if got != want:
+        return R({'expected': repr(want), 'observed': repr(got), 'case': name}, name)
+    return R(None, name, nontrivial=True, steps=1)
+
+
 def gen_builders(tier):
     import itertools
     depth = 3
@@ -762,6 +811,9 @@ def subs(tier, only=None):
     from ..engine import fast_tracebacks
     fast_tracebacks()
     out = [
+        Sub('call-and-invoke-parts', list(range(len(parts_menu()))), run_parts,
+            rule='fixed menu: Call evaluates func, args, kwargs once each in that order (stateful func specs); Invoke.star / .specs with falsy specs (empty chain, empty Path)',
+            min_nontrivial=8, min_outcomes=8),
         Sub('list-spec-falsy-targets', [[t, p] for t in FALSY_TARGETS for p in FALSY_POSITIONS], run_falsy_list,
             rule='case = (falsy / truthy value that can or cannot be iterated, position of the list spec): an un-iterable target is UnregisteredTarget whatever its '
                  'truth value, an empty iterable gives []', min_nontrivial=60, min_outcomes=2),
